@@ -143,7 +143,20 @@ fn e2e_pair(t: &e2e::RunTest, res: &mut ShardResult) {
             res.note_nontrivial(hash64(t.name.as_bytes()));
         }
     }
-    if !od.same_behaviour(&or) {
+    // raw `log` instructions of asm blocks log register contents, which may be addresses of
+    // locals (layout dependent, e.g. should_pass/language/retd_b256): the receipt must be
+    // there in both runs, its operand values are not compared
+    let mask = |o: &Observation| {
+        let mut m = o.clone();
+        for &k in &o.raw_log_positions {
+            m.logs[k] = (0, vec![]);
+        }
+        m
+    };
+    if !od.raw_log_positions.is_empty() {
+        res.count("e2e_raw_log_operands_not_compared");
+    }
+    if !mask(&od).same_behaviour(&mask(&or)) {
         res.violation(format!("debug-release-differ:e2e:{}", t.name), format!("e2e test {}: debug: {} / release: {}", t.name, od.short(), or.short()), json!({"e2e": t.name}));
     }
     if res.samples.len() < 2 {
